@@ -345,6 +345,80 @@ def oracle(inp: dict, obs: Any, schemas: dict | None) -> list[str]:
     return fails
 
 
+# ---------------------------------------------------------------- second observation: the generated dataclasses
+DRIVER = """
+import dataclasses, importlib
+def main(arg):
+    m = importlib.import_module(arg["pkg"] + ".models")
+    out = {}
+    for name in dir(m):
+        c = getattr(m, name)
+        if isinstance(c, type) and dataclasses.is_dataclass(c):
+            meta = getattr(c, "Meta", None)
+            load = dict(getattr(meta, "key_transform_with_load", {}) or {})
+            fs = []
+            for f in dataclasses.fields(c):
+                req = f.default is dataclasses.MISSING and f.default_factory is dataclasses.MISSING
+                fs.append([f.name, req, str(f.type)])
+            out[name] = {"fields": fs, "load": load}
+        elif isinstance(c, type):
+            out[name] = {"bases": [b.__name__ for b in c.__mro__[1:3]]}
+    return out
+"""
+PY_PRIM = {"string": "str", "integer": "int", "number": "float", "boolean": "bool"}
+
+
+def pipeline_check(inp: dict) -> tuple[list[str], str]:
+    """Generate the package with the real generator, import its models in a fresh interpreter (pipeline.py) and compare
+    dataclasses.fields()/Meta of every declared object schema with the declared fields.  Returns (failures, status);
+    a package that cannot be generated/imported is not an observation of C02 (C01 owns that) and is only counted."""
+    import pipeline
+    spec = {n: nd for n, nd in inp["schemas"]}
+    with _Env(inp.get("max_depth")):
+        g = pipeline.generate(doc(inp["schemas"]))
+    try:
+        if not g.ok:
+            return [], "generator-failed"
+        r = pipeline.drive(g, DRIVER, {"pkg": g.package})
+        if not r.get("ok"):
+            return [], "import-failed"
+        classes = r["result"]
+    finally:
+        g.cleanup()
+    fails = []
+    for n, nd in inp["schemas"]:
+        if nd[0] not in ("obj", "allof"):
+            continue
+        try:
+            want, req = decl_fields(spec, nd)
+        except _Cyclic:
+            continue
+        c = classes.get(n)
+        if c is None or "fields" not in c:
+            fails.append(f"generated code: no dataclass {n}")
+            continue
+        load = c["load"]
+        by_name = {f[0]: f for f in c["fields"]}
+        if set(load) != set(want) or sorted(load.values()) != sorted(by_name) or len(set(load.values())) != len(load):
+            fails.append(f"generated code: {n} has JSON keys {sorted(load)} / fields {sorted(by_name)}, declared {sorted(want)}")
+            continue
+        for key, pn in want.items():
+            f = by_name[load[key]]
+            if f[1] != (key in req):
+                fails.append(f"generated code: {n}.{key} required={f[1]} but declared {key in req}")
+            t = f[2]
+            ok = True
+            if pn[0] == "ref" and pn[1] in spec and spec[pn[1]][0] in ("obj", "allof", "enum"):
+                ok = ("." + pn[1]) in t or t.startswith(pn[1]) or (pn[1] + " |") in t or ("'" + pn[1] + "'") in t
+            elif pn[0] == "prim":
+                ok = PY_PRIM[pn[1]] in t
+            elif pn[0] == "arr":
+                ok = "List[" in t or "list[" in t
+            if not ok:
+                fails.append(f"generated code: {n}.{key} is annotated {t}, declared {pn[0]} {pn[1] if pn[0] != 'arr' else ''}")
+    return fails, "ok"
+
+
 # ---------------------------------------------------------------- Coq printers
 PRIM_C = {"string": "PString", "integer": "PInteger", "number": "PNumber", "boolean": "PBoolean"}
 
@@ -565,24 +639,24 @@ def build_inputs(chk: Check) -> list[dict]:
     graphs = []
     for si, ns in enumerate(NAME_SETS):
         for nodes in (1, 2, 3):
-            full = nodes < 3 or (chk.thorough and si < 2)   # all graphs with <= 2 edges; 3 nodes: two name sets in full
+            full = nodes < 3 or (chk.thorough and si < 1)   # all graphs with <= 2 edges; 3 nodes: one name set in full
             gs = []
             for edges in enum_graphs(2 if (nodes < 3 or chk.thorough) else 1, nodes):
                 for order in itertools.permutations(range(nodes)):
                     gs.append((ns[:nodes], edges, order))
             if chk.thorough and not full:
-                gs = rng.sample(gs, 2500)
+                gs = rng.sample(gs, 1500)
             graphs += gs
     if not chk.thorough:
         graphs = rng.sample(graphs, 260)
     else:
-        for _ in range(3000):   # 3-edge graphs, sampled
+        for _ in range(2000):   # 3-edge graphs, sampled
             ns = rng.choice(NAME_SETS)
             slots = [(i, j) for i in range(3) for j in range(3)]
             edges = [(a, b, rng.choice(EDGE_KINDS)) for a, b in rng.sample(slots, 3)]
             graphs.append((ns, edges, tuple(rng.sample(range(3), 3))))
     inputs += [graph_spec(*g) for g in graphs]
-    n = 4000 if chk.thorough else 260
+    n = 2500 if chk.thorough else 260
     inputs += [gen_spec(rng, 7) for _ in range(n)]
     inputs += [gen_spec(rng, 7, acyclic=True) for _ in range(n // 3)]
     inputs += [chain(6, 3), chain(8, 150), chain(5, 4)]
@@ -605,6 +679,20 @@ def main(chk: Check, replay: dict | None = None) -> int:
     inputs = build_inputs(chk)
     cases = run_all(inputs)
     chk.cov["evaluations"] = len(cases)
+    # second observation (generated dataclasses) on a subset: corpus + evenly spread in-domain inputs
+    idx = [i for i, c in enumerate(cases) if c["dom"] and not isinstance(c["obs"], str)]
+    want = 60 if chk.thorough else 10
+    ncorpus = len(load_corpus("C02"))
+    chosen = [i for i in idx if i < ncorpus and len(cases[i]["input"]["schemas"]) < 20]
+    rest = [i for i in idx if i >= ncorpus]
+    chosen += rest[:: max(1, len(rest) // want)][:want]
+    pstat: dict[str, int] = {}
+    for i in chosen:
+        fails, status = pipeline_check(cases[i]["input"])
+        pstat[status] = pstat.get(status, 0) + 1
+        cases[i]["oracle_fail"] = cases[i]["oracle_fail"] + fails
+        if fails:
+            pstat["with_failures"] = pstat.get("with_failures", 0) + 1
     dom = [c for c in cases if c["dom"]]
     out = [c for c in cases if not c["dom"]]
     distinct = {json.dumps(c["input"], sort_keys=True) for c in cases
@@ -632,6 +720,7 @@ def main(chk: Check, replay: dict | None = None) -> int:
         "in_model_domain": len(dom), "oracle_only": len(out),
         "load_errors": sum(1 for c in cases if isinstance(c["obs"], str)),
         "oracle_failures": sum(1 for c in cases if c["oracle_fail"]),
+        "generated_dataclass_checks": pstat,
         "with_placeholder": sum(1 for c in cases if not isinstance(c["obs"], str) and any(r[2] for r in c["obs"])),
     }
     for c in cases[:2] + cases[-2:]:
